@@ -111,6 +111,11 @@ func protocolVariant(p protocol.Protocol, v int) protocol.Protocol {
 const nProtocolVariants = 14
 
 func newApplierEnv(seed int64, td uint64, variant int) *applierEnv {
+	// (the model's "longer than any history" - 2 * 10^9 ticks, what TLC's integers hold - stands for 2 * 10^10 seconds)
+	if td >= 1000000000 {
+		td *= 10
+	}
+
 	p := protocolVariant(testProtocol(td), variant)
 
 	return &applierEnv{
@@ -793,9 +798,14 @@ func applierReplay(args []string) {
 
 					// a request may still be rejected by a later rule (e.g. equal next commitments);
 					// what is specified here is the pair the time validator is handed
-					if !rec.called || rec.from != ed.Win.From || rec.until != ed.Win.Until {
+					wantUntil := ed.Win.Until
+					if td >= 1000000000 && ed.Op.From != 0 && ed.Op.Until == 0 {
+						wantUntil = ed.Win.From + int64(env.proto.MaxOperationTimeDelta) // (the model's ticks stand for seconds times ten there)
+					}
+
+					if !rec.called || rec.from != ed.Win.From || rec.until != wantUntil {
 						col.report(mismatch{Kind: "time-validator", Key: opKey("time-validator", &ed.Op), Case: cs,
-							Expected: map[string]interface{}{"called": true, "from": ed.Win.From, "until": ed.Win.Until},
+							Expected: map[string]interface{}{"called": true, "from": ed.Win.From, "until": wantUntil},
 							Actual:   map[string]interface{}{"called": rec.called, "from": rec.from, "until": rec.until, "parse_error": fmt.Sprint(perr)},
 							Concrete: conc(0), Replay: rp})
 					}
